@@ -1,3 +1,8 @@
+(* C22 proofs, part 6: the recursion of next_token over consecutive comments.
+   lexer_comment_depth_l: on n consecutive line comments the model's next_token nests exactly n calls of
+   itself (the `Again` path = `self.next_token()` in scan_minus): one Rust stack frame per comment, with no
+   bound other than the input length.  The stack overflow itself (finding F-C22-12) is observed on the
+   compiled code; this lemma shows where the frames come from. *)
 From Coq Require Import ZArith List Bool Arith Lia ZifyBool.
 From TV Require Import Model.LexerKeywords Model.Lexer.
 Import ListNotations.
